@@ -43,6 +43,9 @@ type dbState struct {
 
 var errInjected = errors.New("injected driver fault")
 
+// nextFailExists makes Rows.Next of the table-existence query fail (set around one scenario run)
+var nextFailExists bool
+
 func (s *dbState) record(kind, text string, args []driver.NamedValue) bool {
 	s.mu.Lock()
 	defer s.mu.Unlock()
@@ -111,6 +114,14 @@ func (c *recConn) QueryContext(ctx context.Context, q string, args []driver.Name
 		return &recRows{rs: c.st.rs}, nil
 	}
 	rs := &resultSet{names: []string{"name"}, types: []string{"TEXT"}, errAt: -1}
+	if nextFailExists {
+		rs.errAt = 0
+		c.st.mu.Lock()
+		if c.st.recording {
+			c.st.calls = append(c.st.calls, recCall{kind: "N", ok: false})
+		}
+		c.st.mu.Unlock()
+	}
 	if c.st.exists {
 		rs.rows = [][]driver.Value{{"t"}}
 	}
